@@ -5,7 +5,7 @@ import numpy as np
 
 import darsia
 from vf import frame, stubs
-from vf.core import and_, eq, ob, same
+from vf.core import and_, eq, ob, or_, same
 
 MODS = ["darsia.utils.fv"]           # grid.py runs natively: it only handles concrete integer index arrays
 FUNCS = ["darsia.utils.fv:FVDivergence.__init__", "darsia.utils.fv:FVMass.__init__", "darsia.utils.fv:face_to_cell",
@@ -262,3 +262,25 @@ def c06_results_independent(ctx, shape):
         ctx.ensure(f"{name}: two results do not share memory", r1.size == 0 or not np.shares_memory(r1, r2))
         ctx.ensure(f"{name}: arguments untouched", same(a, a0) and same(b, b0))
         ctx.ensure(f"{name}: applying again to the first argument reproduces the first result", eq(np.asarray(op(a)), keep) if r1.size else True)
+
+
+@ob("C06.scalar_voxel_size", cases=[dict(shape=s) for s in [(3,), (2, 3), (1, 2), (2, 2, 2), (2, 1, 3)]], mods=MODS, funcs=FUNCS, stubs=STUBS, samples=(2, 4),
+    cite="divergence ... flux times face area ...; mass matrices scale by voxel volume (a grid may be given ONE voxel size for all axes)",
+    note="Grid(shape, voxel_size=h) with a scalar h (the documented second call form): mass diagonals are h^dim, face areas h^(dim-1) - the same operators as for the list "
+         "[h, ..., h] (after seed C06_h: voxel volume taken from the raw scalar argument)")
+def c06_scalar_voxel_size(ctx, shape):
+    dim = len(shape)
+    h = ctx.real("h", pos=True, sample=(0.1, 4.0))
+    gs = darsia.Grid(tuple(shape), h)
+    gl = darsia.Grid(tuple(shape), [h] * dim)
+    nc, nf = int(np.prod(shape)), int(gs.num_faces)
+    vol = h ** dim
+    for mode, n in (("cells", nc), ("faces", nf)):
+        Ms, Ml = dense(darsia.FVMass(gs, mode).mat), dense(darsia.FVMass(gl, mode).mat)
+        ctx.ensure(f"mass matrix ({mode}) of the scalar-size grid == that of the list-size grid", eq(Ms, Ml))
+        ctx.ensure(f"mass matrix ({mode}) = h^dim * identity", eq(Ms, np.array([[vol if i == j else 0 for j in range(n)] for i in range(n)], dtype=object)) if n else True)
+    if nf:
+        Ds, Dl = dense(darsia.FVDivergence(gs).mat), dense(darsia.FVDivergence(gl).mat)
+        ctx.ensure("divergence of the scalar-size grid == that of the list-size grid", eq(Ds, Dl))
+        ctx.ensure("every divergence entry is 0 or +-h^(dim-1)", and_(*[or_(eq(e, 0), eq(e, h ** (dim - 1)), eq(e, -(h ** (dim - 1)))) for e in Ds.flat]))
+    ctx.ensure("voxel size per axis", eq(list(gs.voxel_size), [h] * dim))
